@@ -141,3 +141,22 @@ package ice
 //@   ensures refuses-only-nul-lf-cr: result2 != nil ==> exists j int :: start <= j && j < len(raw) && (raw[j] == 0 || raw[j] == 10 || raw[j] == 13)
 //@   ensures token-has-none-of-the-excluded-bytes: result2 == nil ==> len(result0) <= len(raw) - start && forall j int :: start <= j && j < start + len(result0) ==> raw[j] != 0 && raw[j] != 10 && raw[j] != 13 && raw[j] != 32
 //@   ensures next-position-is-after-the-separator-or-the-end: result2 == nil ==> (result1 == start + len(result0) + 1 && result1 <= len(raw) && raw[result1 - 1] == 32) || (result1 == len(raw) && start + len(result0) == len(raw))
+
+// The token readers of the candidate parser never index or slice outside the text (parsing arbitrary text
+// never panics) and report a position inside the text.
+//@ func readCandidateDigitToken
+//@   props C16
+//@   requires in-range: 0 <= start && start <= len(raw)
+//@   ensures position-stays-inside-the-text: result2 == nil ==> start <= result1 && result1 <= len(raw)
+//@ func readCandidateCharToken
+//@   props C16
+//@   requires in-range: 0 <= start && start <= len(raw)
+//@   ensures position-stays-inside-the-text: result2 == nil ==> start <= result1 && result1 <= len(raw)
+//@ func readCandidateStringToken
+//@   props C16
+//@   requires in-range: 0 <= start && start <= len(raw)
+//@   ensures position-stays-inside-the-text: start <= result1 && result1 <= len(raw)
+//@ func readCandidatePort
+//@   props C16
+//@   requires in-range: 0 <= start && start <= len(raw)
+//@   ensures a-port-fits-sixteen-bits: result2 == nil ==> result0 <= 65535 && start <= result1 && result1 <= len(raw)
